@@ -1,9 +1,95 @@
 import PersimVerif.Drv.Util
-/-! driver commands: Approx (stub until the model lands) -/
+import PersimVerif.Model.Approx
+/-!
+  driver commands for C08 (model executed at `Rat`, exact):
+
+    pl.approx <dgms> <hom_deg> <start|none> <stop|none> <num_steps>   → values matrix | `empty` | err
+    pl.transform <dgms> <hom_deg> <start|none> <stop|none> <num_steps> <flatten> <fit>
+                                                                      → matrix | flat list | `empty` | err
+    pl.vectorize <cps> <start|none> <stop|none> <num_steps>           → matrix | err
+    pl.death <dgms> <hom_deg>                                         → list (with `inf`) | err
+    pl.lambda.grid <bars> <start> <stop> <num_steps>                  → TRUE landscape at the nodes
+    pl.grid <start> <stop> <num_steps>                                → [step, nodes]
+    pl.snap <start> <stop> <num_steps> <xs>                           → snapped indices
+
+  `<dgms>` is a list of diagrams (coordinates may be `inf`), `<bars>` one finite diagram.
+-/
 namespace PersimVerif.Drv.Approx
-open PersimVerif Val PersimVerif.Drv
+open PersimVerif Val PersimVerif.Drv PersimVerif.Approx
+
+def errName : Err → String
+  | .noDiagrams => "ValueError"
+  | .homDeg => "IndexError"
+  | .emptyDiagram => "ValueError"
+  | .noSteps => "ValueError"
+  | .emptyDepth => "ValueError"
+  | .noDepths => "IndexError"
+  | .startAfterStop => "ValueError"
+  | .notImplemented => "NotImplementedError"
+
+def ofValues : Values Rat → Val
+  | .empty => .str "empty"
+  | .mat rows => ofRatMat rows
+
+def optDgms? : Val → Option (List (Dgm Rat)) := listOf? (dgmOf? optRat?)
+
+def ofOptRats (xs : List (Option Rat)) : Val :=
+  .list (xs.map fun | none => .inf false | some r => .num r)
 
 def handle : Handler
+  | "pl.approx", [d, h, s, e, n] => do
+    let dgms ← optDgms? d
+    let hd ← asNat? h
+    let start ← optOf? asRat? s
+    let stop ← optOf? asRat? e
+    let n ← asNat? n
+    match persLandscapeApprox dgms hd start stop n with
+    | .ok v => pure (ofValues v)
+    | .error x => pure (err (errName x))
+  | "pl.transform", [d, h, s, e, n, fl, ft] => do
+    let X ← listOf? ratDgm? d
+    let hd ← asNat? h
+    let start ← optOf? asRat? s
+    let stop ← optOf? asRat? e
+    let n ← asNat? n
+    let flatten ← asBool? fl
+    let fit ← asBool? ft
+    let self : Landscaper Rat := { homDeg := hd, start := start, stop := stop, numSteps := n, flatten := flatten }
+    match (if fit then self.fitTransform X else self.transform X) with
+    | .ok (.values v) => pure (ofValues v)
+    | .ok (.flat xs) => pure (ofRats xs)
+    | .error x => pure (err (errName x))
+  | "pl.vectorize", [c, s, e, n] => do
+    let cps ← listOf? ratDgm? c
+    let start ← optOf? asRat? s
+    let stop ← optOf? asRat? e
+    let n ← asNat? n
+    match vectorize npInterp cps start stop n with
+    | .ok m => pure (ofRatMat m)
+    | .error x => pure (err (errName x))
+  | "pl.death", [d, h] => do
+    let dgms ← optDgms? d
+    let hd ← asNat? h
+    match deathVector dgms hd with
+    | .ok xs => pure (ofOptRats xs)
+    | .error x => pure (err (errName x))
+  | "pl.lambda.grid", [b, s, e, n] => do
+    let bars ← ratDgm? b
+    let start ← asRat? s
+    let stop ← asRat? e
+    let n ← asNat? n
+    pure (ofRatMat (lambdaGrid bars start stop n))
+  | "pl.grid", [s, e, n] => do
+    let start ← asRat? s
+    let stop ← asRat? e
+    let n ← asNat? n
+    pure (.list [.num (stepOf start stop n), ofRats (linspace start stop n)])
+  | "pl.snap", [s, e, n, xs] => do
+    let start ← asRat? s
+    let stop ← asRat? e
+    let n ← asNat? n
+    let xs ← listOf? asRat? xs
+    pure (ofNats (xs.map (gridIndex (linspace start stop n))))
   | _, _ => none
 
 end PersimVerif.Drv.Approx
